@@ -44,6 +44,9 @@ def _retention_dispatcher(kind: str, validator: str, flavour: str):
             raise pjrpc.exc.JsonRpcError(code=5, message='five')
         if fail == 'exc':
             raise RuntimeError('boom')
+        if fail == 'code':
+            # an application error whose code is computed from the request (an upstream status, a row number, ...)
+            raise pjrpc.exc.JsonRpcError(code=a, message='upstream said no', data={'upstream': a})
         return a
 
     if flavour in ('func', 'func-positional'):
@@ -195,6 +198,7 @@ GROWTH_TEMPLATES = {
     'ok-varying-argument': lambda i: {'jsonrpc': '2.0', 'id': i, 'method': 'meth', 'params': {'a': 100000 + i}},
     'ok-varying-string-id': lambda i: {'jsonrpc': '2.0', 'id': f'request-{i}', 'method': 'meth', 'params': [7]},
     'rpc-error-varying-argument': lambda i: {'jsonrpc': '2.0', 'id': i, 'method': 'meth', 'params': {'a': 100000 + i, 'fail': 'rpc'}},
+    'rpc-error-varying-code': lambda i: {'jsonrpc': '2.0', 'id': i, 'method': 'meth', 'params': {'a': 100000 + i, 'fail': 'code'}},
     'exception-varying-argument': lambda i: {'jsonrpc': '2.0', 'id': i, 'method': 'meth', 'params': {'a': 100000 + i, 'fail': 'exc'}},
     'does-not-bind-varying-name': lambda i: {'jsonrpc': '2.0', 'id': i, 'method': 'meth', 'params': {f'zz{i}': 1}},
     'does-not-validate-varying-value': lambda i: {'jsonrpc': '2.0', 'id': i, 'method': 'meth', 'params': {'a': f'not-an-int-{i}'}},
@@ -219,7 +223,7 @@ class C13(Check):
         "referenceable context object each, for function methods (context by name or as first positional argument), class based view methods with and without a constructor context and behind a functools.wraps decorator, a context-only method called without params and a context-free method x validator {base, jsonschema, pydantic} x "
         "sync / async x request kinds (ok, notification, raises, does not bind / validate, unknown, rejected, batch, non-JSON): after gc no "
         "context object and no view instance is alive; (b2) growth: three passes of N in {100, 200, 1000} requests whose client-supplied text never repeats (unknown and dotted method names, argument values, "
-        "string ids, unknown parameter names, invalid values, versions, batches, non-JSON) - the number of gc-tracked objects alive after the third pass exceeds the number after the second by less than N/2; (c) 2..16 threads dispatching rotated corpora through one shared dispatcher with "
+        "string ids, application error codes, unknown parameter names, invalid values, versions, batches, non-JSON) - the number of gc-tracked objects alive after the third pass exceeds the number after the second by less than N/2; (c) 2..16 threads dispatching rotated corpora through one shared dispatcher with "
         "sys.setswitchinterval(1e-6): every response equals the single-threaded response; each round uses a dispatcher over freshly created function objects, so first-call work of the library happens under contention; optionally behind response-rewriting middlewares (a bypassed chain changes the answer). non-trivial = history with >= 1 failing and >= 1 "
         "batch request before the probe / retention with N >= 10 / thread run with >= 2 threads; distinct = distinct spec."
     )
@@ -266,7 +270,7 @@ class C13(Check):
             st.sampled_from(['sync', 'async']), st.sampled_from(['base', 'jsonschema', 'pydantic']), st.sampled_from(['func', 'view', 'view-noctx']),
             st.lists(st.sampled_from(sorted(GROWTH_TEMPLATES)), min_size=1, max_size=3, unique=True),
         )
-        return st.one_of(hist('sync'), hist('async'), hist('sync'), hist('async'), retention, retention, threads('sync'), vhistory, growth)
+        return jg.weighted(hist('sync'), hist('async'), hist('sync'), hist('async'), retention, retention, threads('sync'), vhistory, growth)
 
     def enumerate(self, tier: str):
         # the N = 1000 matrix: flavour x validator x dispatcher (12 cells)
